@@ -78,6 +78,10 @@ THEOREMS = [
     'C06.gen_patypeTableOk_eq_model', 'C06.gen_extendDispatch_eq_model', 'C06.gen_sysNatypesOf_eq_model',
     'C06.gen_padTests_eq_model', 'C06.gen_massesSetDecision_eq_model', 'C06.gen_systemInit_eq_model',
     'C06.gen_atomsExtend_eq_model', 'C06.gen_step_eq_model', 'C06.gen_posCastKinds_eq_model', 'C06.posLit_ok', 'C06.posLit_spec',
+    'C06.gen_dfScaleKeys_eq_model',
+    # tables (Atoms.df / System.atoms_df): reads do not write, one cell per atom in every column, prod(trail) columns per
+    # property, row j of every column is atom j
+    'C06.df_reads_only', 'C06.indexStrs_length', 'C06.dfColumns_rectangular', 'C06.dfColumns_cell',
     # ... and the functions of the model factor through those decisions
     'C06.viewBcast_by_decision', 'C06.viewBcast_refuse', 'C06.viewGuard_refuses_iff', 'C06.atypeGuard_refuses_iff',
     'C06.mkAtoms_defaults', 'C06.sysNatypes_by_decision', 'C06.symbolsGet_by_decision', 'C06.massesSet_by_decision',
@@ -750,6 +754,25 @@ def translate():
     emit('/-- the scaled positions are written at `self.natoms` (`true`: at the donor\'s length). -/')
     emit(f'def atomsExtendOffsetDonor : Bool := {off}')
 
+    # Atoms.df / System.atoms_df: the scale argument as a decision, the table loops as statement pins
+    loop = ("for key in %s.keys():\n%s    for index, istr in indexstr(%s[key].shape[1:]):\n        newkey = key + istr\n"
+            "        if index == ():\n            values[newkey] = %s\n        else:\n            values[newkey] = %s[(Ellipsis,) + index]")
+    pin('Atoms', 'df', ['values = OrderedDict()', loop % ('self.view', '', 'self.view', 'self.view[key]', 'self.view[key]'),
+                        'return pd.DataFrame(values)'], 'model: dfColumns / valColumns / indexStrs / flatIdx')
+    b = body('System', 'atoms_df')
+    if len(b) != 4 or not isinstance(b[0], ast.If):
+        fail('System.atoms_df: expected scale handling, values, loop, return')
+    scaled = ("    value = self.atoms.view[key]\n    if key in scale:\n        value = self.box.position_cartesian_to_relative(value)\n")
+    if [ast.unparse(x) for x in b[1:]] != ['values = OrderedDict()',
+            loop % ('self.atoms.view', scaled, 'self.atoms.view', 'value', 'value'), 'return pd.DataFrame(values)']:
+        fail('System.atoms_df: the table loop changed')
+    C = Cond({}, {'scale is True': '(scale = DfScale.flag (Flag.bool true))', 'scale is False': '(scale = DfScale.flag (Flag.bool false))',
+                  'isinstance(scale, list)': '(scale.isList = true)'}, 'System.atoms_df')
+    emit('/-- `System.atoms_df`: the property names that are converted to box-relative values. -/')
+    emit('def dfScaleKeys (scale : DfScale) : List String := ' + tree([b[0]], C, {
+        "scale = ['pos']": ('ret', '["pos"]'), 'scale = []': ('ret', '[]'), 'scale = [scale]': ('ret', 'scale.single')},
+        'scale.toKeys', 'System.atoms_df'))
+
     # _AtomsIndexer
     pin('_AtomsIndexer', '__getitem__', ['host = self.__host',
         'return System(atoms=host.atoms[index], box=host.box, pbc=host.pbc, symbols=host.symbols)'], 'model: ixGet')
@@ -858,6 +881,25 @@ def cell_tokens(arr):
     if k == 'U':
         return ['_' + x for x in flat]
     return ['?'] * len(flat)
+
+
+def table_wire(df):
+    """a DataFrame as the model prints a table: `ok d ncols {name dtype nrows cells…}` (strings without width)."""
+    np = _np()
+    toks = ['ok', 'd', str(len(df.columns))]
+    for name in df.columns:
+        col = df[name]
+        if not hasattr(col, 'tolist') or getattr(col, 'ndim', 1) != 1:
+            raise ReplyError('duplicate column name %r' % (name,))
+        vals = col.tolist()
+        arr = col.to_numpy()
+        if arr.dtype.kind in 'iufb':
+            toks += [str(name), dt_token(arr)[0], str(len(vals))] + cell_tokens(arr)
+        elif all(isinstance(x, str) for x in vals):
+            toks += [str(name), 's', str(len(vals))] + ['_' + x for x in vals]
+        else:
+            toks += [str(name), '?', str(len(vals))] + ['?'] * len(vals)
+    return ' '.join(toks)
 
 
 class ReplyError(Exception):
@@ -1065,6 +1107,15 @@ def op_line(op, W):
             v = op['value']
             body = f"i {m[op['s']]} {v[1]}" if v[0] == 'i' else f"a {m[op['s']]} {m[v[1]]}"
             return f"call aext {body} {flag_wire(op, 'scale')} {syms_wire(op.get('symbols'))}"
+        if k == 'df':
+            return f"op df {m[op['o']]}"
+        if k == 'sdf':
+            sc = op.get('scale')
+            if isinstance(sc, list):
+                return ' '.join([f"op sdf l {m[op['s']]} {len(sc)}"] + list(sc))
+            if isinstance(sc, str):
+                return f"op sdf k {m[op['s']]} {sc}"
+            return f"op sdf f {m[op['s']]} {'b1' if sc else 'b0'}"
         if k == 'ixget':
             return f"op ixget {m[op['s']]} {ix_wire(op['ix'])}"
         if k == 'ixset':
@@ -1245,7 +1296,7 @@ def exec_real(op, W):
                 W.last_obs = S[op['s']].atoms_df()
             else:
                 W.last_obs = S[op['s']].atoms_df(scale=op['scale'])
-            rep = 'ok'
+            rep = table_wire(W.last_obs)
         elif k == 'sdcopy':
             s = copy.deepcopy(S[op['s']])
             created.append(('a', 'a%d' % op['id'], s.atoms))
@@ -1611,7 +1662,7 @@ def gen_masses(rng, lo=0, hi=4):
 
 GETTERS = ['massget', 'massget', 'massget', 'symget', 'symget', 'snatypes', 'snatypes', 'satypes', 'scomp', 'sstr']
 OBSERVERS = ('symget', 'massget', 'snatypes', 'satypes', 'scomp', 'sstr')
-SEARCH_ONLY = ('df', 'sdf', 'ainfo', 'sinfo', 'spkeys')
+SEARCH_ONLY = ('ainfo', 'sinfo', 'spkeys')
 
 
 def raw_natypes(a):
@@ -1767,6 +1818,13 @@ def gen_op(rng, W, k, malformed=0.12):
             return tw
     if S and rng.random() < 0.05:
         return {'op': rng.choice(GETTERS), 's': rng.choice(list(S))}
+    if rng.random() < 0.03:     # the tables are operations of the model (reads: the full state is compared afterwards)
+        if S and rng.random() < 0.5:
+            sh = rng.choice(list(S))
+            exact = box_exact(W.box.get(sh))
+            sc = rng.choice([False, True, ['pos'], 'pos', []]) if exact else rng.choice([False, []])
+            return {'op': 'sdf', 's': sh, 'scale': sc}
+        return {'op': 'df', 'o': rng.choice(list(A))}
     if len(A) > 6:
         bound = {id(s.atoms) for s in S.values()}
         free = [h for h, a in A.items() if id(a) not in bound]
